@@ -26,6 +26,7 @@ func main() {
 	empty(r)
 	prim3d(r)
 	tri3d(r)
+	sharedCorner3d(r)
 	mesh3d(r)
 	wrappers3d(r)
 	solid3d(r)
@@ -37,7 +38,7 @@ func main() {
 		"clause.first", "clause.hit_set", "clause.parity", "clause.ball", "clause.contains", "clause.segment", "clause.rect", "clause.triangle"} {
 		r.Require(k, 200)
 	}
-	for _, k := range []string{"clause.segment_true", "clause.rect_true", "clause.triangle_intersecting", "clause.collider_solid"} {
+	for _, k := range []string{"clause.segment_true", "clause.rect_true", "clause.triangle_intersecting", "clause.collider_solid", "clause.triangle_shared_corner", "clause.triangle_anchored_intersecting"} {
 		r.Require(k, 50)
 	}
 	for _, api := range []string{"model3d.Sphere", "model3d.Rect", "model3d.Capsule", "model3d.Cylinder", "model3d.Cone", "model3d.Torus",
@@ -181,6 +182,7 @@ func mesh3d(r *vlib.Run) {
 		c.Count("mesh3d."+m.label, 1)
 		exercise3(c, s, 30, 15, 5)
 		checkMulti3(c, s, 5)
+		anchoredTriangleQueries(c, s, 4)
 	})
 }
 
